@@ -51,6 +51,34 @@ sys.exit(1 if bad else 0)
 '''
 
 
+REPLAY_LIVE = '''
+from vlib import build
+import numpy as np, tempfile, os, shutil, sys, warnings
+warnings.simplefilter('ignore')
+drf = build.load_pkg()
+kw = %r
+a, d1, d2, pos = kw.get('a', 0), kw.get('d1', 1), kw.get('d2', 1), kw.get('pos', 2)
+base = 10**6
+three = [base + a, base + a + d1, base + a + d1 + d2]
+new = three[pos]; old = [x for x in three if x != new]
+top = tempfile.mkdtemp(); md = os.path.join(top, 'md'); os.makedirs(md)
+w = drf.DigitalMetadataWriter(md, 1000, 100, 1, 1, 'md')
+w.write(old, [{'v': int(x)} for x in old])
+r_old = drf.DigitalMetadataReader(md)
+bad = 0
+if r_old.get_bounds() != (old[0], old[1]) or list(r_old.read_latest().keys()) != [old[1]]: print('before the write:', r_old.get_bounds(), list(r_old.read_latest().keys())); bad = 1
+r_old.read(old[0], old[1], method='ffill')
+w.write(new, {'v': int(new)})
+r_new = drf.DigitalMetadataReader(md)
+for nm, r in (('reader created before the write', r_old), ('reader created after the write', r_new)):
+    got = (r.get_bounds(), list(r.read(new, new).keys()), list(r.read_latest().keys()), list(r.read(new, new, method='ffill').keys()))
+    want = ((three[0], three[2]), [new], [three[2]], [new])
+    if got != want: print(nm, 'reports', got, 'expected', want); bad = 1
+shutil.rmtree(top)
+sys.exit(1 if bad else 0)
+'''
+
+
 def main(tier):
     rep = common.Report('C20', tier, 'model_checking', functions=FUNCS)
     st = smt.Stats()
@@ -59,7 +87,8 @@ def main(tier):
     T = 180 if tier == 'quick' else 900
     res = chx.run_module('meta', names=list(META), per_condition_timeout=T)
     body = lambda kw: REPLAY
-    chx.report(rep, res, META, replays={k: body for k in META}, sigs={k: 'C20.' + k.strip('_') for k in META})
+    live = lambda kw: REPLAY_LIVE % (kw,)
+    chx.report(rep, res, META, replays=dict({k: body for k in META}, _reader_sees_write=live, _read_latest=live, _bounds=live), sigs={k: 'C20.' + k.strip('_') for k in META})
     res = chx.run_module('reader', names=list(READER), per_condition_timeout=T)
     chx.report(rep, res, READER, replays={k: body for k in READER}, sigs={k: 'C20.' + k.strip('_') for k in READER})
     # real-tree validation: reading a valid tree changes nothing; writes are visible to earlier and later readers
